@@ -16,6 +16,12 @@ Sub-lattices (every one is a complete Cartesian product / complete finite set):
       one obtained on fresh objects with cleared caches (history independence)
   S5  one simulated ("flown") trajectory x fuels x spine
 plus `observe(case)` for the runner's order-independence pass.
+
+Isolation: every case starts from the state a fresh process has (functools caches of the emissions
+package cleared, shared performance-model objects verified unchanged after every evaluation and rebuilt
+if an evaluation rewrote them - that evaluation is flagged `input-mutated`). State carried from one
+evaluation to the next is explored deliberately, and reproducibly, by S4, by `observe` (never clears
+anything) and by `replay` (cold run, then a run after one sweep of the spine on shared objects).
 """
 
 from __future__ import annotations
@@ -34,7 +40,7 @@ ENGINE = 'bex'
 RULE = (
     'complete products: S1 trajectory length x all phase splits x all zero/positive burn patterns x '
     'altitude/TAS/fuel-flow profiles x 12-configuration spine; S2 fuels x LTO sets x APU sets x aircraft '
-    'classes x spine x 3 trajectories; S3 all 31 104 supported option combinations per trajectory; S4 all '
+    'classes x spine x 3 trajectories; S2b engine-database variants x PMnvol method x mode x altitude profile; S3 all 31 104 supported option combinations per trajectory; S4 all '
     'ordered pairs of spine configurations on shared objects; S5 simulated flight x fuels x spine. A case is '
     'non-trivial when an inventory was returned, >=1 segment burned fuel and >=3 species carry a non-zero '
     'amount; distinct = distinct case'
@@ -44,8 +50,12 @@ ASSUMPTIONS = [
     'injected through a duck-typed performance model of the same shape the repository tests use',
     'fuel mass is non-increasing along a trajectory (burn >= 0); n_climb + n_descent <= n',
     'configuration singleton reset and re-loaded by the harness for every evaluation',
-    'a configuration that raises NotImplementedError/ValueError/RuntimeError is a refusal judged by C11, '
-    'only counted here (except in S3/S4/S5 spine+jetA, where the configuration is supported and must not raise)',
+    'compute_emissions leaves its inputs (performance-model LTO/EDB/APU data, trajectory arrays, fuel) unchanged: '
+    'an inventory is a statement about them, and any later inventory from the same objects would differ '
+    '(clause input-mutated)',
+    'a supported configuration on a fuel that carries the data it needs must return an inventory (any exception is '
+    'a violation); the life-cycle adjustment on a fuel without life-cycle value is a RuntimeError refusal that is '
+    'only counted here (C11 judges refusals); pmnvol_method=foa3 (refused by name) is outside the supported set',
     'APU data are the shipped table rows, an unknown (zero-flow) APU or no APU; positivity of APU CO2 for '
     'absurd APU data is not claimed',
 ]
